@@ -498,7 +498,8 @@ def run(out):
         core.merge_into(out, rec, tag)
     # close() called from several threads at once: still one release (scheduled real threads, every schedule within the preemption bound)
     from props import threads_extra
-    nc_, exc_, npc_, fc_ = threads_extra.close_scenarios(out.tier == 'quick')
+    nc_, exc_, npc_, fc_, rc_ = threads_extra.close_scenarios(out.tier == 'quick')
+    threads_extra.replay_on_model(out, threads_extra.COMP_CLOSE, rc_, 'close() runs replayed on ConcClose.v')
     out.evaluations += nc_
     out.components['close() from several threads (scheduled, implementation against the statement)'] = {
         'cases': nc_, 'programs': npc_, 'programs_with_all_schedules_within_the_preemption_bound': exc_, 'oracle_failures': len(fc_)}
